@@ -38,7 +38,7 @@ def reference(lines, att=False, want_bytes=False):
             bad |= newbad
         if not os.path.exists(obj):
             return [None] * len(lines)
-        out = subprocess.run(['objdump', '-d', '-M', 'intel', '--no-show-raw-insn', obj], capture_output=True, text=True).stdout
+        out = subprocess.run(['objdump', '-d', '-z', '-M', 'intel', '--no-show-raw-insn', obj], capture_output=True, text=True).stdout
         raw = b''
         if want_bytes:
             binf = os.path.join(d, 'x.bin')
